@@ -1,6 +1,7 @@
 package main
 
 import (
+	"bufio"
 	"bytes"
 	"crypto/aes"
 	"crypto/cipher"
@@ -17,6 +18,7 @@ import (
 	"strings"
 	"sync"
 	"sync/atomic"
+	"syscall"
 
 	"github.com/welllog/golib/cryptz"
 )
@@ -132,6 +134,114 @@ func (r *planReader) Read(p []byte) (int, error) {
 		}
 	}
 	return n, nil
+}
+
+// planWriterTo is planReader with io.WriterTo, the way bytes.Reader, bytes.Buffer, strings.Reader, bufio.Reader have it:
+// io.Copy then does not read through its own 32 KiB buffer but lets the source write; every chunk of the plan arrives in ONE
+// Write of its full size (pieces of at most max bytes: max is the d of the case, the generator makes it >= every chunk).
+type planWriterTo struct {
+	planReader
+	max int
+}
+
+func (r *planWriterTo) WriteTo(w io.Writer) (int64, error) {
+	var total int64
+	emit := func(b []byte) error {
+		for len(b) > 0 {
+			k := len(b)
+			if r.max > 0 && k > r.max {
+				k = r.max
+			}
+			m, err := w.Write(b[:k])
+			if m > k || m < 0 {
+				panic("planWriterTo: invalid Write count")
+			}
+			total += int64(m)
+			if err != nil {
+				return err
+			}
+			if m != k {
+				return io.ErrShortWrite
+			}
+			b = b[k:]
+		}
+		return nil
+	}
+	for _, n := range r.plan {
+		k := int(n)
+		if k > len(r.data) {
+			k = len(r.data)
+		}
+		if k <= 0 {
+			continue
+		}
+		if err := emit(r.data[:k]); err != nil {
+			return total, err
+		}
+		r.data = r.data[k:]
+	}
+	r.plan = nil
+	if err := emit(r.data); err != nil {
+		return total, err
+	}
+	r.data = nil
+	if r.term == 2 {
+		return total, errInjected
+	}
+	return total, nil
+}
+
+// the source of an EncryptStreamTo case (field e)
+func c09Source(e int64, text []byte, plan []int64, term int64, d int64) io.Reader {
+	switch e {
+	case 1:
+		return &planWriterTo{planReader: planReader{data: text, plan: append([]int64{}, plan...), term: term}, max: int(d)}
+	case 2:
+		return bytes.NewReader(text)
+	case 3:
+		return bytes.NewBuffer(append([]byte{}, text...))
+	case 4:
+		return strings.NewReader(string(text))
+	case 5:
+		return bufio.NewReader(bytes.NewReader(text))
+	}
+	return &planReader{data: text, plan: append([]int64{}, plan...), term: term}
+}
+
+var c09SourceNames = []string{"chunking reader (io.Copy's buffer)", "chunking source with io.WriterTo", "bytes.Reader", "bytes.Buffer", "strings.Reader", "bufio.Reader over bytes.Reader"}
+
+// What the model predicts of the implementation's output (the judge always sees all of it):
+//   - kinds 10, 11: code, number of bytes written, write sizes (see coq/Run/C09.v);
+//   - source 5 (bufio.Reader): its WriteTo first flushes its own (empty) buffer with a zero-length Write (go1.23), which the
+//     model's reader does not have: the write sizes are compared without the zero entries.
+func c09XProj(in, impl []int64) []int64 {
+	if len(in) < 6 || len(impl) < 3 || impl[0] != 0 {
+		return impl
+	}
+	big := in[0] == 10 || in[0] == 11
+	bufioSrc := (in[0] == 8 || in[0] == 10) && in[5] == 5
+	if !big && !bufioSrc {
+		return impl
+	}
+	written, rest := GetList(impl[2:])
+	sizes, tail := GetList(rest)
+	o := []int64{0, impl[1]}
+	if big {
+		o = append(o, int64(len(written)))
+	} else {
+		o = append(o, PutList(written)...)
+	}
+	if bufioSrc {
+		var nz []int64
+		for _, x := range sizes {
+			if x != 0 {
+				nz = append(nz, x)
+			}
+		}
+		sizes = nz
+	}
+	o = append(o, PutList(sizes)...)
+	return append(o, tail...)
 }
 
 type planWriter struct {
@@ -271,7 +381,7 @@ func c09Impl(in []int64) []int64 {
 			return inconsistent
 		}
 		return res(out, err)
-	case 1, 3, 5, 7, 9:
+	case 1, 3, 5, 7, 9, 11:
 		// Every decryption is preceded by a decryption of the SAME message with ANOTHER secret (result ignored): the
 		// answer must depend on the arguments only, not on what the previous call derived (a memo keyed by the salt,
 		// say).  It is made on the caller's OWN buffer (none of these calls asks for in-place operation): an entry point
@@ -333,8 +443,8 @@ func c09Impl(in []int64) []int64 {
 		}
 		o := append([]int64{0}, PutList(Bytes(out))...)
 		return append(o, PutList(Bytes(text))...)
-	case 8:
-		rd := &planReader{data: text, plan: append([]int64{}, l5...), term: a}
+	case 8, 10:
+		rd := c09Source(in[5], text, l5, a, d)
 		w := &planWriter{budget: c}
 		var err error
 		withSalt(salt, b != 0, func() ([]byte, error) {
@@ -342,7 +452,7 @@ func c09Impl(in []int64) []int64 {
 			return nil, err
 		}, nil)
 		return streamOut(err, w)
-	case 9:
+	case 9, 11:
 		rd := &planReader{data: text, plan: append([]int64{}, l5...), term: a}
 		if d == 32768 {
 			w := &planWriter{budget: c}
@@ -652,6 +762,149 @@ func c09Gen(c *Ctx) {
 			}
 		})
 	}
+	// E3. who decides the size of one Write / one Read: a source with io.WriterTo (bytes.Reader, bytes.Buffer, strings.Reader,
+	// bufio.Reader, the harness's own) makes io.Copy skip its 32 KiB buffer and hands every chunk to the cipher writer in ONE
+	// Write of any size; a destination with io.ReaderFrom offers the cipher reader a buffer of any size.  Small streams go
+	// through the full model (kind 8, d >= every chunk) ...
+	wsl := []int{0, 1, 15, 16, 17, 33, 100, 255, 256, 257}
+	if !c.Quick() {
+		wsl = append(wsl, 511, 512, 513, 700)
+	}
+	c.Each(len(wsl)*(6*3+4)*c.N(1, 3), func(i int, t *T) {
+		n := wsl[i%len(wsl)]
+		j := (i / len(wsl)) % (6*3 + 4)
+		p, secret, salt := rbytes(t, n), c09Secret(t), rbytes(t, 8)
+		src, style, term := int64(1), 0, int64(0)
+		if j < 18 {
+			style, term = j%6, int64(j/6)
+		} else {
+			src = int64(j - 18 + 2)
+		}
+		plan := c09Plan(t, n, style)
+		if n == 0 && src >= 2 {
+			plan = nil
+		}
+		budget := int64(1 << 30)
+		if t.R.Intn(6) == 0 && src != 5 {
+			budget = int64(t.R.Intn(5))
+		}
+		t.C.Count("stream-source", c09SourceNames[src])
+		t.Try("stream-encrypt-writerto-source", c09Case(8, term, 1, budget, int64(n)+B(n == 0), src, p, secret, salt, nil, plan), true)
+	})
+	// ... long ones (kinds 10 / 11: every byte judged, the model compared on code / length / write sizes).  One evaluation
+	// costs about a second per 30 KiB, so the quick tier takes a selection: every kind of source with ONE Write just above
+	// 32 KiB (io.Copy's buffer size) and, rotating with the seed, just above 64 KiB or of an arbitrary length; the lengths
+	// 2^k+1 (k = 10..14: a scratch buffer of such a size assumed to bound a Write shows one byte above it); streams of
+	// several io.Copy buffers through the plain reader; plans whole / 32 KiB pieces / a few large pieces; decryption into
+	// buffers of 32768 (io.Copy), 40000, 65536 and stream size.  The thorough tier: the whole grid 2^k-1, 2^k, 2^k+1
+	// (k = 10..17), 40000, 100000, 200000 x source x plan.
+	bigPlan := func(t *T, n, style int) []int64 {
+		switch style {
+		case 0:
+			return []int64{int64(n)}
+		case 1: // pieces of io.Copy's buffer size
+			var pl []int64
+			for left := n; left > 0; left -= 32768 {
+				pl = append(pl, 32768)
+			}
+			return pl
+		default: // a few pieces, small and large
+			var pl []int64
+			for left := n; left > 0; {
+				k := []int{1, 16, 1000, 4096, 32767, 32768, 32769, 40000, 70000}[t.R.Intn(9)]
+				if t.R.Intn(3) == 0 {
+					k = 1 + t.R.Intn(left)
+				}
+				if k > left {
+					k = left
+				}
+				pl = append(pl, int64(k))
+				left -= k
+			}
+			return pl
+		}
+	}
+	type longSpec struct {
+		enc         bool
+		n           int   // plaintext length; -1: random in 32770..70000
+		src         int64 // encryption: the source; decryption: 0
+		style, term int   // -1: random
+		B           int64 // decryption: 0 = random choice
+	}
+	var specs []longSpec
+	if c.Quick() {
+		rot := int(c.Seed % 5)
+		if rot < 0 {
+			rot = 0
+		}
+		for src := int64(1); src <= 5; src++ {
+			specs = append(specs, longSpec{true, 32769, src, 0, 0, 0})
+			switch (int(src) + rot) % 5 {
+			case 0:
+				specs = append(specs, longSpec{true, 65537, src, 0, 0, 0})
+			case 1:
+				specs = append(specs, longSpec{true, -1, src, 0, 0, 0})
+			}
+			specs = append(specs, longSpec{true, []int{1025, 4097, 8193, 16385, 32768}[(int(src)+rot)%5], src, 0, 0, 0})
+		}
+		specs = append(specs,
+			longSpec{true, 32768, 1 + int64(rot), 0, 0, 0},
+			longSpec{true, -1, 0, -1, -1, 0}, // several io.Copy buffers
+			longSpec{true, -1, 1, 1, -1, 0},
+			longSpec{true, -1, 1, 2, -1, 0},
+			longSpec{false, 32769, 0, 0, -1, 32768},
+			longSpec{false, -1, 0, 2, -1, 32768},
+			longSpec{false, 40001, 0, 0, -1, 40000},
+			longSpec{false, -1, 0, -1, -1, 65536},
+			longSpec{false, 32769 + rot, 0, 0, -1, -1})
+	} else {
+		var big []int
+		for _, p2 := range []int{1024, 4096, 8192, 16384, 32768, 65536, 131072} {
+			big = append(big, p2-1, p2, p2+1)
+		}
+		big = append(big, 40000, 100000, 2*32768-16, 2*32768+16, 3*32768+5, 200000, -1)
+		for _, n := range big {
+			specs = append(specs, longSpec{true, n, 0, -1, -1, 0})
+			for style := 0; style < 3; style++ {
+				specs = append(specs, longSpec{true, n, 1, style, -1, 0}, longSpec{false, n, 0, style, -1, 0})
+			}
+			for src := int64(2); src <= 5; src++ {
+				specs = append(specs, longSpec{true, n, src, 0, 0, 0})
+			}
+		}
+	}
+	c.Each(len(specs), func(i int, t *T) {
+		sp := specs[i]
+		n, style, term := sp.n, sp.style, int64(sp.term)
+		if n < 0 {
+			n = 32770 + t.R.Intn(37231)
+		}
+		if style < 0 {
+			style = t.R.Intn(3)
+		}
+		if term < 0 {
+			term = int64(t.R.Intn(3))
+		}
+		p, secret, salt := rbytes(t, n), c09Secret(t), rbytes(t, 8)
+		if sp.enc {
+			d := int64(n)
+			if sp.src == 0 {
+				d = 32768
+			}
+			t.C.Count("stream-source", c09SourceNames[sp.src]+" (long)")
+			t.Try("stream-encrypt-long", c09Case(10, term, 1, 1<<30, d, sp.src, p, secret, salt, nil, bigPlan(t, n, style)), true)
+			return
+		}
+		msg := refStream(p, secret, salt)
+		B := sp.B
+		if B == 0 {
+			B = []int64{32768, 32768, 40000, 65536, int64(len(msg)), int64(len(msg)) + 1}[t.R.Intn(6)]
+		} else if B < 0 {
+			B = int64(len(msg)) + int64(t.R.Intn(2))
+		}
+		t.C.Count("stream-B", fmt.Sprint(B)+" (long)")
+		t.Try("stream-decrypt-long", c09Case(11, term, 0, 1<<30, B, 0, msg, secret, nil, nil, bigPlan(t, len(msg), style)), true)
+	})
 	// C. every single-character corruption and every truncation of every kind of ciphertext
 	nm := c.N(4, 12)
 	type cmsg struct {
@@ -886,7 +1139,7 @@ func c09Describe(in []int64) string {
 	if len(in) < 6 {
 		return "?"
 	}
-	names := []string{"Encrypt", "Decrypt", "GCMEncrypt", "GCMDecrypt", "SaltBySecretCBCEncrypt", "SaltBySecretCBCDecrypt", "SaltBySecretGCMEncrypt", "SaltBySecretGCMDecrypt", "EncryptStreamTo", "DecryptStreamTo"}
+	names := []string{"Encrypt", "Decrypt", "GCMEncrypt", "GCMDecrypt", "SaltBySecretCBCEncrypt", "SaltBySecretCBCDecrypt", "SaltBySecretGCMEncrypt", "SaltBySecretGCMDecrypt", "EncryptStreamTo", "DecryptStreamTo", "EncryptStreamTo (long stream)", "DecryptStreamTo (long stream)"}
 	k := int(in[0])
 	if k < 0 || k >= len(names) {
 		return "?"
@@ -897,7 +1150,10 @@ func c09Describe(in []int64) string {
 	l4, r := GetList(r)
 	l5, _ := GetList(r)
 	s := fmt.Sprintf("%s: text %q (%d bytes), secret %q", names[k], ToBytes(l1), len(l1), ToBytes(l2))
-	if k == 0 || k == 2 || k == 4 || k == 6 || k == 8 {
+	if k >= 10 {
+		s = fmt.Sprintf("%s: text of %d bytes beginning %q, secret %q", names[k], len(l1), ToBytes(clip(l1, 32)), ToBytes(l2))
+	}
+	if k == 0 || k == 2 || k == 4 || k == 6 || k == 8 || k == 10 {
 		s += fmt.Sprintf(", salt %x, random source ok=%d", ToBytes(l3), in[2])
 	}
 	if k == 2 || k == 3 || k == 6 || k == 7 {
@@ -907,7 +1163,13 @@ func c09Describe(in []int64) string {
 		s += fmt.Sprintf(", reuseCipherText=%d", in[1])
 	}
 	if k >= 8 {
-		s += fmt.Sprintf(", reader plan %v, terminal %d (0 EOF alone, 1 EOF with last data, 2 error), writer accepts %d writes, read buffer %d", l5, in[1], in[3], in[4])
+		s += fmt.Sprintf(", reader plan %v, terminal %d (0 EOF alone, 1 EOF with last data, 2 error), writer accepts %d writes, read buffer %d", clip(l5, 40), in[1], in[3], in[4])
+		if (k == 8 || k == 10) && in[5] >= 0 && int(in[5]) < len(c09SourceNames) {
+			s += ", source: " + c09SourceNames[in[5]]
+			if in[5] >= 1 {
+				s += " (every chunk of the plan reaches the cipher writer in one Write)"
+			}
+		}
 	}
 	return s
 }
@@ -935,14 +1197,40 @@ func c09Shrink(in []int64) [][]int64 {
 	if len(l4) > 0 {
 		out = append(out, mk(l1, l2, nil, l5))
 	}
-	if len(l1) > 0 && (in[0]%2 == 0 || in[0] == 9) {
+	if len(l1) > 0 && (in[0]%2 == 0 || in[0] == 9 || in[0] == 11) {
 		out = append(out, mk(l1[:len(l1)/2], l2, l4, l5), mk(l1[:len(l1)-1], l2, l4, l5))
 	}
 	return out
 }
 
+// Long streams (kinds 10 / 11: cases of up to a few 10^5 integers): the OCaml driver and the extracted model recurse once
+// per list element (List.map, app, firstn, ...) and the default 8 MiB stack of the driver process does not suffice.  The
+// model processes are children of this one and inherit its limits: raise the soft stack limit before they are started
+// (the Go runtime itself does not use it).
+func init() {
+	isC09 := false
+	for _, a := range os.Args[1:] {
+		isC09 = isC09 || a == "C09"
+	}
+	if !isC09 {
+		return
+	}
+	var l syscall.Rlimit
+	if syscall.Getrlimit(syscall.RLIMIT_STACK, &l) != nil {
+		return
+	}
+	want := uint64(4 << 30)
+	if l.Max < want {
+		want = l.Max
+	}
+	if l.Cur < want {
+		l.Cur = want
+		syscall.Setrlimit(syscall.RLIMIT_STACK, &l)
+	}
+}
+
 func init() {
 	Register(&Prop{ID: "C09", Num: 9, SpecMode: "rel", Gen: c09Gen, Impl: c09Impl, Oracle: stdOracle,
-		Shrink: c09Shrink, Describe: c09Describe,
-		Rule: "Encrypt / SaltBySecretCBCEncrypt / GCMEncrypt / SaltBySecretGCMEncrypt on every plaintext length 0..80 (thorough 0..160) with the salt pinned through crypto/rand.Reader (plus a run with the real source whose salt is read back and re-pinned: outputs must agree), string and []byte secrets; Decrypt / GCMDecrypt / SaltBySecret*Decrypt (reuse on/off, final buffer compared) on messages built independently (EVP_BytesToKey + library CBC/GCM); every single-character corruption (another symbol of the alphabet / a foreign symbol / one bit) and every truncation of base64, hex, raw CBC, raw GCM and stream ciphertexts; changed secret / additional data for GCM (must be rejected); garbage and boundary-length inputs with and without the magic; streams: chunk plans whole / 1-byte / 7-byte / 16+rest / random with zero-length reads / random, terminal EOF alone / EOF with the last data / injected error, read buffers 32768 (io.Copy) and 1,5,16,17,64 (io.ReaderFrom), writers failing after k writes; a failing random source. The model computes with the real AES/GCM/MD5/base64 through the oracle table; the judge derives the expected bytes independently (EVP definition, PKCS#7 definition, library whole-message CBC/CTR/GCM). distinct = distinct case; non-trivial = the input is at least a header long or an encryption/stream case"})
+		Shrink: c09Shrink, Describe: c09Describe, XProj: c09XProj,
+		Rule: "Encrypt / SaltBySecretCBCEncrypt / GCMEncrypt / SaltBySecretGCMEncrypt on every plaintext length 0..80 (thorough 0..160) with the salt pinned through crypto/rand.Reader (plus a run with the real source whose salt is read back and re-pinned: outputs must agree), string and []byte secrets; Decrypt / GCMDecrypt / SaltBySecret*Decrypt (reuse on/off, final buffer compared) on messages built independently (EVP_BytesToKey + library CBC/GCM); every single-character corruption (another symbol of the alphabet / a foreign symbol / one bit) and every truncation of base64, hex, raw CBC, raw GCM and stream ciphertexts; changed secret / additional data for GCM (must be rejected); garbage and boundary-length inputs with and without the magic; streams: chunk plans whole / 1-byte / 7-byte / 16+rest / random with zero-length reads / random, terminal EOF alone / EOF with the last data / injected error, read buffers 32768 (io.Copy) and 1,5,16,17,64 (io.ReaderFrom), writers failing after k writes; a failing random source; sources with io.WriterTo (the harness's own with every plan, bytes.Reader, bytes.Buffer, strings.Reader, bufio.Reader: io.Copy bypasses its buffer, each chunk is one Write of its full size) on short streams (0..257 bytes, full model) and on long ones (quick: each source with one Write of 32769 bytes, two of them also 65537 / a random length up to 70000, lengths 2^k+1 for k = 10..14 and 32768, several-buffer streams through the plain reader, plans whole / 32 KiB pieces / mixed large pieces, decryption into buffers of 32768, 40000, 65536, stream size; thorough: the grid 2^k-1, 2^k, 2^k+1 for k = 10..17, 40000, 100000, 200000 x source x plan): there every byte is judged, the model is compared on result code, number of bytes and write sizes (kinds 10/11). The model computes with the real AES/GCM/MD5/base64 through the oracle table; the judge derives the expected bytes independently (EVP definition, PKCS#7 definition, library whole-message CBC/CTR/GCM). distinct = distinct case; non-trivial = the input is at least a header long or an encryption/stream case"})
 }
